@@ -218,8 +218,9 @@ def run(rep, tier, seed):
     rep.notes["transitions_replayed_after_genuine_history"] = nT
     t = T[len(T) // 2]
     rep.sample({"template->copy->edit": [o for o, _ in G["access"][canon(t["from"])][1]] + [t["op"]]})
-    rep.cov["traces_validated_against_impl"] = 0
     rep.cov["evaluations"] = nT
+    from harness import suite
+    suite.run_for(rep, "C12")
     rep.cov["distinct_nontrivial"] = nT
     rep.cov["rule"] = "one case per labelled transition of MC_Copy (template x copied subtree x edit on any node of either tree)"
     rep.cov["exhaustive"] = True
